@@ -266,6 +266,13 @@ impl Prop for C15 {
                 chk(ctx, "num-traits (is_zero, is_one, is_negative, is_positive)", "C15/num-traits-predicates", g.clone().map(|g| g == wantp), format!("observed {g:?}, expected {wantp:?}"));
                 let g = catch(|| (rep(Decimal::zero()), rep(Decimal::one())));
                 chk(ctx, "zero()/one()", "C15/num-traits-consts", g.clone().map(|g| g.0 .0 == 0 && val_eq(g.1, (&Big::one(), 0))), format!("observed {g:?}"));
+                let g = catch(|| {
+                    let (mut a, mut b) = (d, d);
+                    Zero::set_zero(&mut a);
+                    One::set_one(&mut b);
+                    (rep(a), rep(b), a.eq_zero(), b.eq_one())
+                });
+                chk(ctx, "set_zero()/set_one()", "C15/num-traits-consts", g.clone().map(|g| g.0 .0 == 0 && val_eq(g.1, (&Big::one(), 0)) && g.2 && g.3), format!("observed {g:?}"));
                 let g = catch(|| rep(Signed::abs(&d)));
                 chk(ctx, "Signed::abs", "C15/abs", g.clone().map(|g| g == (x.c.abs(), x.s)), format!("observed {g:?}"));
                 let g = catch(|| rep(Signed::signum(&d)));
